@@ -509,12 +509,16 @@ Definition vdie_get (d : vdie) (name : string) : option (string * aval) :=
 (* ------------------------------------------------------------------ RangeLists.iter_range_lists *)
 (* cu_map = {die.attributes['DW_AT_ranges'].value: cu for cu in iter_CUs() for die in cu.iter_DIEs()
              if 'DW_AT_ranges' in die.attributes and (cu['version'] >= 5) == ver5} *)
-Definition range_refs_of_cu (S : sections) (ver5 : bool) (cv : cuview) : res (list (Z * cuview)) :=
-  do dies <- mapM (translate_die S cv) (cv_dies cv);
+(* the part of the comprehension that follows "for die in cu.iter_DIEs()", over the parsed DIEs *)
+Definition range_refs_of_dies (ver5 : bool) (cv : cuview) (dies : list vdie) : res (list (Z * cuview)) :=
   if Bool.eqb (5 <=? cv_version cv) ver5 then
     mapM (fun d => do o <- aval_int (snd d); Ok (o, cv))
          (flat_map (fun d => match vdie_get d "DW_AT_ranges" with Some fv => [fv] | None => [] end) dies)
   else Ok [].
+
+Definition range_refs_of_cu (S : sections) (ver5 : bool) (cv : cuview) : res (list (Z * cuview)) :=
+  do dies <- mapM (translate_die S cv) (cv_dies cv);
+  range_refs_of_dies ver5 cv dies.
 
 (* the (key, value) pairs of the comprehension, in iteration order *)
 Definition range_refs (S : sections) (ver5 : bool) (cus : list cuview) : res (list (Z * cuview)) :=
@@ -580,11 +584,15 @@ Definition scan_die (cv : cuview) (st : loc_scan) (d : vdie) : res loc_scan :=
        end)
     (dedup String.eqb (map (fun x => fst (fst x)) d)) (Ok st1).
 
+(* "for die in cu.iter_DIEs(): ..." over the parsed DIEs of one unit *)
+Definition scan_dies (cv : cuview) (st : loc_scan) (dies : list vdie) : res loc_scan :=
+  fold_left (fun a d => do s <- a; scan_die cv s d) dies (Ok st).
+
 Definition scan_cu (S : sections) (ver5 : bool) (acc : res loc_scan) (cv : cuview) : res loc_scan :=
   do st <- acc;
   if Bool.eqb (5 <=? cv_version cv) ver5 then
     do dies <- mapM (translate_die S cv) (cv_dies cv);
-    fold_left (fun a d => do s <- a; scan_die cv s d) dies (Ok st)
+    scan_dies cv st dies
   else Ok st.
 
 Definition scan_locs (S : sections) (ver5 : bool) (cus : list cuview) : res loc_scan :=
@@ -680,14 +688,19 @@ Definition loc4_lists (S : sections) (lv : operands) (stream : list Z) (sc : loc
       end) offsets;
   Ok (concat ls).
 
-Definition iter_location_lists (T : entry_tables) (L : hlayout) (lv : operands) (S : sections)
-    (version : Z) (stream : list Z) (cus : list cuview) : res (list (list tup)) :=
-  let ver5 := 5 <=? version in
-  do sc <- scan_locs S ver5 cus;
+(* the part of iter_location_lists that follows the scan of the debugging entries *)
+Definition loc_lists_of_scan (T : entry_tables) (L : hlayout) (lv : operands) (S : sections)
+    (ver5 : bool) (stream : list Z) (sc : loc_scan) : res (list (list tup)) :=
   let all_offsets := sorted_by (fun x => x) (ls_offsets sc) in
   if ver5 then
     loc5_loop (Datatypes.S (2 * length all_offsets + 2 * length stream)) T L lv S stream sc 0 None all_offsets
   else loc4_lists S lv stream sc all_offsets.
+
+Definition iter_location_lists (T : entry_tables) (L : hlayout) (lv : operands) (S : sections)
+    (version : Z) (stream : list Z) (cus : list cuview) : res (list (list tup)) :=
+  let ver5 := 5 <=? version in
+  do sc <- scan_locs S ver5 cus;
+  loc_lists_of_scan T L lv S ver5 stream sc.
 
 (* ------------------------------------------------------------------ DWARFInfo.location_lists / range_lists,
    LocationListsPair / RangeListsPair dispatch *)
